@@ -39,6 +39,9 @@ def build_pool(seed, n=60):
     for k in range(2):
         pool.append({'src': 'li a0, 1\nlui a1, %hi(ext)\naddi a1, a1, %lo(ext)\nmv a2, a1\ncall rom_putc\nown:\nj own\n', 'compress': bool(k), 'dicts': True,
                      'ext': {'ext': 0x20001000, 'rom_putc': 0x1fff0100}})
+    # programs that fail at different stages while the caller's table holds external symbols
+    for bad in ('K = 5 / 2', 'K = NOSUCH + 1', 'x5 = 3', 'addi x1, x1, 5000', 'j nolabel', 'K = (1'):
+        pool.append({'src': 'nop\n%s\ncall rom_putc\n' % bad, 'compress': False, 'dicts': True, 'ext': {'ext': 0x20001000, 'rom_putc': 0x1fff0100}})
     # an expression that binds a name while it is evaluated (`:=`); later programs that use or define that name
     pool.append({'src': 'SIZE = (n := 4) * 4\naddi x1, x0, SIZE\n', 'compress': False, 'dicts': True})
     pool.append({'src': 'M = n + 1\naddi x1, x0, M\n', 'compress': False, 'dicts': True})
@@ -116,10 +119,13 @@ def run_entry(asm, entry, root):
             again = bytes(asm.assemble(src, **kw)).hex()
         res = {'ok': True, 'out': out.hex(), 'again_with_the_same_tables': again, 'labels': sorted(labels.items()) if entry.get('stale') else list(labels.items()), 'constants': list(constants.items())}
     except Exception as e:  # noqa
+        ext_lost = None
+        if entry.get('ext'):
+            ext_lost = {k: labels.get(k) for k, v in entry['ext'].items() if labels.get(k) != v} or None
         line = getattr(e, 'line', None)
         f = getattr(line, 'file', None)
         res = {'ok': False, 'type': type(e).__name__, 'msg': str(getattr(e, 'message', e))[:200].replace(root, '<root>'),
-               'file': os.path.basename(f) if isinstance(f, str) else f, 'number': getattr(line, 'number', None)}
+               'file': os.path.basename(f) if isinstance(f, str) else f, 'number': getattr(line, 'number', None), 'externals_changed_by_the_failing_call': ext_lost}
     if incs is not None:
         res['include_dirs_mutated'] = incs != incs_before
     return res
